@@ -16,9 +16,12 @@ NoKid == OctKey(32, "a", NONE, NONE)
 Bad  == WithDefect(OctKey(32, "a", "HS256", "kbad"), "k", "absent")
 Bad2 == WithDefect(OctKey(32, "b", NONE, NONE), "k", "number")
 
+\* keys that own provider-side objects (removal has to release them, under whichever provider is current)
+KRsa == AsymKey("rsa2048a", 0, "RS256", "k2")
+KEd  == AsymKey("ed25519a", 1, NONE, NONE)
 Loads == { [doc |-> "keys", keys |-> <<K1>>], [doc |-> "single", keys |-> <<K1b>>],
-           [doc |-> "keys", keys |-> <<NoKid>>], [doc |-> "single", keys |-> <<Bad>>],
-           [doc |-> "keys", keys |-> <<K2, Bad2, K1>>], [doc |-> "nonjson", keys |-> <<>>],
+           [doc |-> "keys", keys |-> <<KEd>>], [doc |-> "single", keys |-> <<Bad>>],
+           [doc |-> "keys", keys |-> <<KRsa, Bad2, K1>>], [doc |-> "nonjson", keys |-> <<>>],
            [doc |-> "keys", keys |-> <<>>] }
 
 Readback == <<[op |-> "ItemGet", ring |-> 0, index |-> 0], [op |-> "ItemGet", ring |-> 0, index |-> 1],
